@@ -311,7 +311,15 @@ class Ctx:
         if not cases:
             return
         got = []
+        import gens as _gens
+        pr = self.sub(f"poison/{len(cases)}/{self.evaluations}")
         for c in cases:
+            if pr.random() < 0.03 and len(c.line) < 4000:
+                # now and then the poisoning sequence under the call's own keys runs immediately before the call
+                try:
+                    _gens.poison_line(c.line, pr)
+                except Exception:  # noqa: BLE001
+                    pass
             got.append(canon(c.call))
         want = run_model([c.line for c in cases])
         for c, g, w in zip(cases, got, want):
